@@ -75,6 +75,7 @@ var opaqueModels = map[string]bool{
 	"(*github.com/go-logfmt/logfmt.Decoder).Value":                     true,
 	"(*github.com/go-logfmt/logfmt.Decoder).Err":                       true,
 	"strings.NewReader":                                                true,
+	"go.opentelemetry.io/collector/pdata/pcommon.NewMap":               true,
 	"(go.opentelemetry.io/collector/pdata/pcommon.TraceID).IsEmpty":    true,
 	"(go.opentelemetry.io/collector/pdata/pcommon.SpanID).IsEmpty":     true,
 	"(go.opentelemetry.io/collector/pdata/plog.SeverityNumber).String": true,
